@@ -207,6 +207,26 @@ PROPS = {
         "level_note": "trusted: Lean kernel; harness/check; pods whose primary container has no explicit command (image-registry lookup) and JSON patch generation in Handle are not modelled",
         "assumptions": ["the primary container has an explicit command (otherwise the webhook asks the image registry)", "ownership graphs are acyclic (the API server guarantees it via UIDs)"],
     },
+    "C14": {
+        "prop_files": ["Katib/Props/C14.lean"],
+        "n": {"quick": 6000, "thorough": 300000},
+        "rule": "generated Experiments before defaulting (names incl. dots, upper case, trailing hyphen/newline, 40/41 characters; budgets nil/-1..6; objective, algorithm, early stopping, "
+                "resume policy valid/invalid/nil; 0-3 parameters of every type with valid, empty, mixed and duplicated spaces and names; NAS config; inline Job/TFJob/CRD templates and "
+                "ConfigMap templates with declared/undeclared/unused placeholders, metadata references (Name, Labels[k] present/absent, unknown keys), missing apiVersion, fixed name, "
+                "unconvertible Job fields; collector kinds x nil/partial sources, ports, filters) plus one random field of the spec zeroed by reflection, x three katib-config contents; run "
+                "through the real SetDefault + ValidateExperiment (recover), and for admitted objects through util.GetSuggestion*Name and GetRunSpecWithHyperParameters on two feasible "
+                "assignments; every sixth case checks the naming rule / the DNS label predicates on random strings against the validator and k8s.io/apimachinery validation",
+        "trusted": ["engines as oracle bits: regexp, JSON/YAML conversion of the dry-run template, batch/v1 Job conversion (asked from the real validator on a clean experiment), katib-config "
+                    "lookups, strconv.Atoi", "the harness's own dry-run substitution (compared with the model's dry-run text on every case)", "fake client as API server"],
+        "modelled": ["Experiment.SetDefault (parallel count, resume policy, template conditions, collector sources, distributions) and DefaultValidator.ValidateExperiment for creation "
+                     "(all validate* helpers; nil dereferences as the outcome crash) as Katib.Adm.*; name rules on character lists; applyParameters through Katib.Tpl.placeholders"],
+        "level_text": "partial: Lean theorems C14_no_crash (validation of a defaulted Experiment never dereferences nil, any content, any engine answers), C14_pointers, C14_budget, C14_names, "
+                      "C14_trial_names for every Experiment / name; C14_algorithm_name_counterexample and the instantiate-battery oracle witness four known findings; exact differential run "
+                      "of the real webhooks (error paths in order) against the model",
+        "level_note": "partial: 'the template instantiates for every feasible assignment' is decided per case by running the real generator (oracle), not by a theorem; objective metric "
+                      "strategies and NAS operations are not modelled; updates (oldInst) are C15",
+        "assumptions": ["Go's regexp `$` matches only at the end of the text (checked by the name stream)"],
+    },
     "C13": {
         "prop_files": ["Katib/Props/C13.lean"],
         "n": {"quick": 8000, "thorough": 300000},
